@@ -284,3 +284,16 @@ func solveBatch(dir, name, body string, n int, toSecs int, needTwo bool) BatchRe
 	res.Secs = time.Since(start).Seconds()
 	return res
 }
+
+// quickSat runs one short satisfiability query (z3-new, else z3); anything but unsat counts as satisfiable.
+func quickSat(body string) bool {
+	checkSolvers()
+	bin := "z3-new"
+	if !solverAvail[bin] {
+		bin = "z3"
+	}
+	cmd := exec.Command(bin, "-in", "-T:3")
+	cmd.Stdin = strings.NewReader(body + "(check-sat)\n")
+	out, _ := cmd.Output()
+	return !strings.HasPrefix(strings.TrimSpace(string(out)), "unsat")
+}
